@@ -589,7 +589,7 @@ macro_rules! c10_branch {
                         assert!(*cut == maxrel, "cut is not the end of the requested message's run");
                         assert!(mid.as_ref().map(|m| m.len() == 1 && m.as_bytes()[0] == w).unwrap_or(false), "lineage names another message");
                     }
-                    kani::cover!(sel == 2, "branch from a message id accepted");
+                    kani::cover!(sel == 2 || sel == 0, "accepted via the message-id selector (or, in shapes without a message, without selector)");
                     kani::cover!(sel == 1 && want_seq < head, "branch from a mid-thread seq accepted");
                 }
                 Err(_) => {
@@ -713,7 +713,7 @@ macro_rules! c10_handoff {
                         assert!(*cut == maxrel, "cut is not the end of the requested message's run");
                         assert!(mid.as_ref().map(|m| m.len() == 1 && m.as_bytes()[0] == w).unwrap_or(false), "lineage names another message");
                     }
-                    kani::cover!(sel == 2, "branch from a message id accepted");
+                    kani::cover!(sel == 2 || sel == 0, "accepted via the message-id selector (or, in shapes without a message, without selector)");
                     kani::cover!(sel == 1 && want_seq < head, "branch from a mid-thread seq accepted");
                 }
                 Err(_) => {
@@ -823,7 +823,7 @@ macro_rules! c10_branch4 {
                         assert!(*cut == maxrel, "cut is not the end of the requested message's run");
                         assert!(mid.as_ref().map(|m| m.len() == 1 && m.as_bytes()[0] == w).unwrap_or(false), "lineage names another message");
                     }
-                    kani::cover!(sel == 2, "branch from a message id accepted");
+                    kani::cover!(sel == 2 || sel == 0, "accepted via the message-id selector (or, in shapes without a message, without selector)");
                     kani::cover!(sel == 1 && want_seq < head, "branch from a mid-thread seq accepted");
                 }
                 Err(_) => {
@@ -1790,3 +1790,59 @@ c02_cursor_history!(c02_cursor_rotate_appends_once, |s, env, _seqs| {
     assert!(env.log_appends == 1, "a rotate must append exactly one frame");
     core::mem::forget(r);
 });
+
+// ---------------------------------------------------------------------------------------------------------
+// C10 / C05: creating a thread. The real create_continuity: exactly one frame, continuity_created at seq 0 under the
+// NEW thread's id; the thread index is saved only AFTER the creation frame reached the truth log (a crash in between
+// leaves a thread that ensure_default can find again from the log, never an index entry without a stream).
+// ---------------------------------------------------------------------------------------------------------
+fn env_index_path(data_dir: &Path) -> PathBuf {
+    env_path(env_of_path(data_dir) as *mut Env)
+}
+fn env_save_index(path: &Path, _index: &ContinuityIndexV1) -> io::Result<()> {
+    let env = env_of_path(path);
+    // recorded in `created`: 0 = not saved, else the number of log appends that had happened when it was saved
+    env.created = env.log_appends + 100;
+    Ok(())
+}
+fn env_log_append_created(this: &EventLog, event: &Event) -> io::Result<()> {
+    let env = env_of_path(rip_log::verif_kani::kani_event_log_path(this));
+    env.log_appends += 1;
+    env.last_seq = event.seq;
+    env.last_on_parent = event.session_id.len() == 1 && event.session_id.as_bytes()[0] == b'k';
+    env.last_kind = if matches!(event.kind, EventKind::ContinuityCreated { .. }) { 7 } else { 0 };
+    assert!(env.created == 0, "thread index saved before the creation frame reached the truth log");
+    Ok(())
+}
+
+#[kani::proof]
+#[kani::unwind(6)]
+#[kani::stub(std::fmt::format, stub_fmt_format)]
+#[kani::stub(std::hash::RandomState::new, stub_random_state_new)]
+#[kani::stub(uuid::Uuid::new_v4, stub_uuid_v4)]
+#[kani::stub(now_ms, stub_now_ms_sym)]
+#[kani::stub(alloc::string::ToString::to_string, stub_to_string_empty)]
+#[kani::stub(index_path, env_index_path)]
+#[kani::stub(save_index, env_save_index)]
+#[kani::stub(rip_log::EventLog::append, env_log_append_created)]
+#[kani::stub(ContinuityStreamCache::append_best_effort, env_cache_append_noop)]
+#[kani::stub(broadcast::Sender::send, env_send_noop)]
+fn c10_create_continuity_frame() {
+    let mut dummy = core::mem::ManuallyDrop::new([h_created(0)]);
+    let mut env = Env::new(dummy.as_mut_ptr(), 0);
+    let store = kani_store_env(&mut env);
+    let set_default: bool = kani::any();
+    let r = store.create_continuity(lit("w"), Some(lit("k")), None, set_default);
+    match &r {
+        Ok(id) => {
+            assert!(id.len() == 1 && id.as_bytes()[0] == b'k', "returned id is not the new thread's id");
+            assert!(env.log_appends == 1, "thread creation must append exactly one frame");
+            assert!(env.last_seq == 0 && env.last_kind == 7, "first frame of a thread is not continuity_created at seq 0");
+            assert!(env.last_on_parent, "creation frame not recorded under the new thread's id");
+            assert!(env.created == 101, "thread index not saved after (and only after) the creation frame");
+        }
+        Err(_) => assert!(false, "thread creation refused"),
+    }
+    kani::cover!(set_default, "created as the workspace default");
+    core::mem::forget(r);
+}
